@@ -22,7 +22,8 @@ PAIRS = {
     "dc": ("PotentialElectrode", "CurrentElectrode", "dc", "current_electrodes", "potential_electrodes"),
 }
 EDITS = ["channels", "unit", "input_type", "loop_radius", "offset_value", "offset_property", "angle", "bearing",
-         "waveform", "timing_mark", "components", "reopen", "copy", "copy_cross", "copy_of_copy", "copy_extent"]
+         "waveform", "timing_mark", "components", "reopen", "copy", "copy_cross", "copy_of_copy", "copy_extent",
+         "edit_copy", "edit_copy"]
 
 
 def op_strategy():
@@ -56,6 +57,8 @@ class C20(Check):
             [{"op": "channels", "side": "B", "v": [1, 2]}, {"op": "reopen", "side": "A", "v": [1]}, {"op": "copy", "side": "A", "v": [1]}],
             [{"op": "unit", "side": "A", "v": [2]}, {"op": "copy_cross", "side": "B", "v": [1]}, {"op": "copy_of_copy", "side": "A", "v": [1]}],
             [{"op": "components", "side": "A", "v": [3]}, {"op": "copy_extent", "side": "A", "v": [2]}, {"op": "reopen", "side": "B", "v": [1]}],
+            [{"op": "waveform", "side": "A", "v": [1, 2, 3]}, {"op": "copy", "side": "A", "v": [1]}, {"op": "edit_copy", "side": "A", "v": [0]},
+             {"op": "edit_copy", "side": "A", "v": [1, 5, 6]}],
         ]
         for pair, direction, ops in itertools.product(PAIRS, ["A", "B"], fixed):
             progs.append({"pair": pair, "direction": direction, "n": 6, "ops": ops})
@@ -230,6 +233,25 @@ class C20(Check):
                     if edited_via_partner:
                         nontrivial = True
                     copies = []
+                    continue
+                if name == "edit_copy":
+                    # an edit of a shared parameter on a COPY must not show through on the originals
+                    if not copies:
+                        continue
+                    cp = copies[-1][0]
+                    before_a = json.dumps(self.shared(a.metadata, family), sort_keys=True)
+                    sub = ["timing_mark", "waveform", "channels", "unit", "loop_radius"][op["v"][0] % 5]
+                    try:
+                        done_edit = self.apply(sub, op, cp, family, cp.workspace, res)
+                    except Exception as exc:
+                        res.fail(f"C20/op-raises/{pair}/edit_copy:{sub}/{type(exc).__name__}", f"step {step}: {type(exc).__name__}: {exc}"[:300])
+                        return res
+                    if done_edit:
+                        res.label("op:edit_copy:" + sub)
+                        after_a = json.dumps(self.shared(a.metadata, family), sort_keys=True)
+                        if after_a != before_a:
+                            res.fail(f"C20/edit-of-copy-shows-in-original/{pair}/{sub}/", f"original metadata {before_a[:200]} -> {after_a[:200]}")
+                            return res
                     continue
                 if name in ("copy", "copy_cross", "copy_of_copy", "copy_extent"):
                     src = target
